@@ -445,7 +445,7 @@ def _used_names_in_file(filename: Path) -> Collection[str]:
     for node in core.walk(ast_root, ast.ImportFrom):
         # The imported objects must keep their original names, whether or not they are used
         # (re-exports), and whatever alias they are imported under.
-        names.extend(alias.name for alias in node.names if alias.name != "*")
+        names.extend(alias.name if alias.name != "*" else "__all__" for alias in node.names)
 
     for node in core.walk(ast_root, (ast.Name, ast.Attribute)):
         if isinstance(node, ast.Name) and (node.id in imported_names or "*" in imported_names):
